@@ -19,6 +19,23 @@ Proof.
   destruct (langid_from_bytes_total s) as [[v ->]|[e ->]]; auto with tot.
 Qed.
 
+(* consequences used by callers that persist identifiers: whatever deserialises, serialises to a form that
+   deserialises to the same value (no drift across the serde boundary), and two different values never share
+   a serialised form *)
+Theorem C19_de_ser_de : forall j v, de j = Ok v -> de (ser v) = Ok v.
+Proof.
+  intros [| | |s| |] v H; cbn [de] in H; try discriminate.
+  apply C19_roundtrip. apply (langid_parse_inv s).
+  destruct (langid_from_bytes s); congruence.
+Qed.
+Theorem C19_ser_injective : forall x y, li_inv x = true -> li_inv y = true -> ser x = ser y -> x = y.
+Proof.
+  intros x y Hx Hy E. pose proof (C19_roundtrip x Hx) as Rx. pose proof (C19_roundtrip y Hy) as Ry.
+  rewrite E in Rx. congruence.
+Qed.
+Print Assumptions C19_de_ser_de.
+Print Assumptions C19_ser_injective.
+
 (* the executable serde specifications that judge the implementation in the correspondence run are corollaries of
    the theorems above: the MODEL's answer passes them on every input *)
 From UL Require Oracle OracleSound OracleSoundRest.
